@@ -19,6 +19,10 @@ Body1 == <<<<>>, l1, <<>>>>
 Body2 == <<<<>>, l1, l2, <<>>, l3, l1, <<>>>>
 Body3 == <<l1>>
 Body4 == <<<<>>, l4, l2, <<>>, <<>>>>
+l5 == <<SP, SP, 42, SP, 116, 114, 97, 105, 108, SP, SP>>                                 \* "  * trail  "  (trailing blanks are text)
+l6 == <<SP>>                                                                             \* " "            (a line holding one blank)
+l7 == <<SP, SP, 116, 97, 98, TAB>>                                                       \* "  tab\t"
+Body5 == <<<<>>, l5, l6, l7, <<>>>>
 E(src, ver, dists, opts, body, maint, date) ==
     [source |-> src, version |-> ver, dists |-> dists, opts |-> opts, body |-> body, maint |-> maint, date |-> date]
 Entries == {
@@ -26,7 +30,8 @@ Entries == {
     E(libx, <<49, 58, 48, 46, 53, 126, 114, 99, 49>>, <<unstable, experimental>>, << <<urgency, medium>>, <<binonly, yes>> >>, Body2, m2,
       D(4, 29, 2, 2024, 23, 59, 59, FALSE, 5, 30)),
     E(hello, <<50, 46, 57>>, <<experimental>>, << <<urgency, low>> >>, Body3, m1, D(6, 31, 12, 2022, 0, 0, 0, FALSE, 0, 0)),
-    E(libx, <<48, 46, 49, 43, 98, 49>>, <<unstable>>, << <<urgency, medium>> >>, Body4, m2, D(7, 1, 3, 2015, 12, 30, 1, TRUE, 11, 0)) }
+    E(libx, <<48, 46, 49, 43, 98, 49>>, <<unstable>>, << <<urgency, medium>> >>, Body4, m2, D(7, 1, 3, 2015, 12, 30, 1, TRUE, 11, 0)),
+    E(hello, <<51>>, <<unstable>>, << <<urgency, low>> >>, Body5, m1, D(5, 13, 6, 2025, 9, 8, 7, FALSE, 2, 0)) }
 Models == UNION {[1..n -> Entries] : n \in 1..MaxEntries}
 Vec(es, lead, gap, final) ==
     LET r == RenderChangelog(es, lead, gap, final) IN
